@@ -184,8 +184,11 @@ def replay(cid, path):
     with open(path) as f:
         body = json.load(f)
     case = body["case"]
-    ctx, viol = run_case(check, case, keep_events=True)
     want = body["expect"]["signature"]
+    for _ in range(int(getattr(check, "CONFIRM_TRIES", 1))):
+        ctx, viol = run_case(check, case, keep_events=True)
+        if viol is not None and viol.signature == want:
+            break
     if viol is None:
         print("replay: no violation (expected %s)" % want)
         return 0
@@ -501,7 +504,13 @@ def confirm_shrink_write(check, cid, seed, config, i, case, sig, detail):
                 "is not deterministic" % (config, i, viol.signature))
         return write_replay(cid, seed, config, i, case, sig, viol.detail,
                             ctx.events[-200:], shrunk_from=len(canon(case)))
-    ctx, viol = run_case(check, case, keep_events=True)
+    # (a check whose property *is* reproducibility declares CONFIRM_TRIES:
+    # when the code under test draws from an unseeded generator, two
+    # executions differ with high probability, not with certainty)
+    for _ in range(int(getattr(check, "CONFIRM_TRIES", 1))):
+        ctx, viol = run_case(check, case, keep_events=True)
+        if viol is not None and viol.signature == sig:
+            break
     if viol is None or viol.signature != sig:
         raise HarnessError(
             "violation %s of run %s/%d did not reproduce from its recorded "
@@ -523,10 +532,19 @@ def confirm_shrink_write(check, cid, seed, config, i, case, sig, detail):
                               budget_s=float(os.environ.get(
                                   "VERIF_SHRINK_S", "20")))
     small = json.loads(canon(small))
-    ctx, viol = run_case(check, small, keep_events=True)
+    for _ in range(int(getattr(check, "CONFIRM_TRIES", 1))):
+        ctx, viol = run_case(check, small, keep_events=True)
+        if viol is not None and viol.signature == sig:
+            break
     if viol is None or viol.signature != sig:
         small = case
-        ctx, viol = run_case(check, small, keep_events=True)
+        for _ in range(int(getattr(check, "CONFIRM_TRIES", 1)) + 3):
+            ctx, viol = run_case(check, small, keep_events=True)
+            if viol is not None and viol.signature == sig:
+                break
+        if viol is None:
+            raise HarnessError("violation %s of run %s/%d reproduced once "
+                               "and then no more" % (sig, config, i))
     return write_replay(cid, seed, config, i, small, sig, viol.detail,
                         ctx.events[-200:],
                         shrunk_from=len(canon(case)))
